@@ -5,6 +5,7 @@ package c15
 import (
 	"bytes"
 	"context"
+	"errors"
 	"fmt"
 	"io"
 	"sort"
@@ -50,6 +51,42 @@ func (s slow) ResolveBlob(ctx context.Context, repo string, d ociregistry.Digest
 func (s slow) ResolveManifest(ctx context.Context, repo string, d ociregistry.Digest) (ociregistry.Descriptor, error) {
 	time.Sleep(s.d)
 	return s.Interface.ResolveManifest(ctx, repo, d)
+}
+
+// strict makes a member's readers behave like a remote registry's: after Close they
+// give no more data (an in-memory registry's reader does not mind being closed).
+type strict struct{ ociregistry.Interface }
+
+type strictReader struct {
+	ociregistry.BlobReader
+	closed bool
+}
+
+func (r *strictReader) Read(p []byte) (int, error) {
+	if r.closed {
+		return 0, errors.New("read from a reader that has been closed")
+	}
+	return r.BlobReader.Read(p)
+}
+func (r *strictReader) Close() error { r.closed = true; return r.BlobReader.Close() }
+
+func strictR(r ociregistry.BlobReader, err error) (ociregistry.BlobReader, error) {
+	if err != nil {
+		return r, err
+	}
+	return &strictReader{BlobReader: r}, nil
+}
+func (s strict) GetBlob(ctx context.Context, repo string, d ociregistry.Digest) (ociregistry.BlobReader, error) {
+	return strictR(s.Interface.GetBlob(ctx, repo, d))
+}
+func (s strict) GetBlobRange(ctx context.Context, repo string, d ociregistry.Digest, o0, o1 int64) (ociregistry.BlobReader, error) {
+	return strictR(s.Interface.GetBlobRange(ctx, repo, d, o0, o1))
+}
+func (s strict) GetManifest(ctx context.Context, repo string, d ociregistry.Digest) (ociregistry.BlobReader, error) {
+	return strictR(s.Interface.GetManifest(ctx, repo, d))
+}
+func (s strict) GetTag(ctx context.Context, repo string, tag string) (ociregistry.BlobReader, error) {
+	return strictR(s.Interface.GetTag(ctx, repo, tag))
 }
 
 // ---- (a) reads over two independently populated members ----
@@ -99,12 +136,12 @@ func runRead(s ReadScript, v *vt.V) {
 			e1.Exec(op)
 		}
 	}
-	var r0, r1 ociregistry.Interface = m0, m1
+	var r0, r1 ociregistry.Interface = strict{m0}, strict{m1}
 	switch s.Slow {
 	case 1:
-		r0 = slow{m0, 300 * time.Microsecond}
+		r0 = slow{r0, 300 * time.Microsecond}
 	case 2:
-		r1 = slow{m1, 300 * time.Microsecond}
+		r1 = slow{r1, 300 * time.Microsecond}
 	}
 	seq := ops.NewEnv(u, ociunify.New(r0, r1, &ociunify.Options{ReadPolicy: ociunify.ReadSequential}))
 	con := ops.NewEnv(u, ociunify.New(r0, r1, &ociunify.Options{ReadPolicy: ociunify.ReadConcurrent}))
@@ -308,7 +345,7 @@ func genRead(t *rapid.T) ReadScript {
 var propRead = &vt.Prop[ReadScript]{
 	ID:   "C15",
 	Name: "UnionReads",
-	Rule: "two ocimem members are populated by two independently generated histories over one universe (equal, disjoint, overlapping contents, the same manifest bytes stored under different media types, the same tag bound to different manifests, a repository known to one member only); 3-25 reads aimed at what either history touched (get/resolve blob, manifest, tag; ranges; repositories, tags, referrers with start points) are issued through ociunify under both policies, optionally with one member's digest-addressed reads delayed so that the member without the content answers first; oracle (from the members themselves) = digest reads succeed iff either member succeeds, with that member's bytes; tag reads: agreement or one side => that content, disagreement => error; listings = sorted duplicate-free union, NAME_UNKNOWN only when both say so; both policies identical; non-trivial = some read on which the members differ (conflict, one-sided, or different lists); distinct = (slow member, conflict/one-sided counts, read kinds)",
+	Rule: "two ocimem members are populated by two independently generated histories over one universe (equal, disjoint, overlapping contents, the same manifest bytes stored under different media types, the same tag bound to different manifests, a repository known to one member only); the members' readers give no more data once closed, as a remote registry's do; 3-25 reads aimed at what either history touched (get/resolve blob, manifest, tag; ranges; repositories, tags, referrers with start points) are issued through ociunify under both policies, optionally with one member's digest-addressed reads delayed so that the member without the content answers first; oracle (from the members themselves) = digest reads succeed iff either member succeeds, with that member's bytes; tag reads: agreement or one side => that content, disagreement => error; listings = sorted duplicate-free union, NAME_UNKNOWN only when both say so; both policies identical; non-trivial = some read on which the members differ (conflict, one-sided, or different lists); distinct = (slow member, conflict/one-sided counts, read kinds)",
 	Gen:  genRead,
 	Run:  runRead,
 }
